@@ -155,6 +155,17 @@ fn check_data_url(map: &MM, before: &[(Line, bool)], after: &[(Line, bool)], leg
         }
         Err(p) => return Verdict::Fail(format!("decode_data_url: {p}")),
     }
+    // the plain form (no charset parameter) of the same payload decodes to the same map
+    let payload = match ser(&DecodedMap::Regular(sm.clone())) {
+        Ok(b) => b,
+        Err(e) => return Verdict::Fail(e),
+    };
+    let plain = format!("data:application/json;base64,{}", crate::refimpl::v3::base64(&payload));
+    match guard(|| decode_data_url(&plain)) {
+        Ok(Ok(m)) => ensure_eq!(obs_any(&m), expected, "decode_data_url(plain base64 form) differs from decode(serialise(m))"),
+        Ok(Err(e)) => return Verdict::Fail(format!("decode_data_url rejects 'data:application/json;base64,<payload>': {e}")),
+        Err(p) => return Verdict::Fail(format!("decode_data_url: {p}")),
+    }
     // embedded in a generated file and discovered from there
     let mut lines: Vec<(Line, bool)> = before.to_vec();
     lines.push((Line::Comment { legacy, pad_l: String::new(), url: url.clone(), pad_r: String::new() }, false));
@@ -221,7 +232,7 @@ fn check(c: &Case, obs: &mut Obs) -> Verdict {
 
 fn url() -> BoxedStrategy<String> {
     prop_oneof![
-        4 => proptest::sample::select(vec!["a.js.map", "http://h/x.map?q=1", "../maps/ü.map", "data:application/json;base64,e30=", "x y.map", "", "file:///abs.map"]).prop_map(|s| s.to_string()),
+        4 => proptest::sample::select(vec!["a.js.map", "http://h/x.map?q=1", "../maps/ü.map", "data:application/json;base64,e30=", "x y.map", "", "file:///abs.map", "@scope/pkg.map", "#frag", "//# sourceMappingURL=nested"]).prop_map(|s| s.to_string()),
         1 => "[a-z./]{1,12}".prop_map(|s| s),
     ]
     .boxed()
